@@ -403,24 +403,36 @@ def defect_present():
 
 
 def defect_prediction(cam, R, ang, vd, p, meshes):
-    """Answer of the 'rotate the global target, then subtract the viewer position' computation
-    (with its ray used for the occluders too).  Only used to NAME a failure."""
+    """Possible answers (a set of booleans) of the 'rotate the global target, then subtract the
+    viewer position' computation, with its ray used for the occluders too.  Both answers are
+    returned when that (wrong) computation itself sits on one of its bounds.  Only used to
+    NAME a failure, never to decide one."""
+    tol = 1e-6
+    both = {True, False}
     p = np.asarray(p, float)
     td = float(np.linalg.norm(p - cam))
-    if td > vd:
-        return False
+    if td > vd + tol:
+        return {False}
+    border = td > vd - tol
     local = R.T @ p - cam
     n = float(np.linalg.norm(local))
-    if n < 1e-12:
-        return None
+    if n < 1e-9:
+        return both
     _, az, alt = M.sph(local)
-    if not (abs(az) <= ang[0] / 2 and abs(alt) <= ang[1] / 2):
-        return False
-    ray = R @ (local / n)
+    for val, half in ((abs(az), ang[0] / 2), (abs(alt), ang[1] / 2)):
+        if val > half + tol:
+            return {False}
+        if val > half - tol:
+            border = True
+    if abs(alt) > math.radians(89.9) and ang[0] < 2 * math.pi - 1e-9:
+        border = True  # azimuth of a vertical ray
+    end = cam + (R @ (local / n)) * td
     for v, f in meshes:
-        if M.segment_hits(cam, cam + ray * td, v, f, t_max=1.0) is not None:
-            return False
-    return True
+        if M.segment_hits(cam, end, v, f, t_max=1.0 - tol) is not None:
+            return both if border else {False}
+        if M.segment_hits(cam, end, v, f, t_max=1.0 + tol) is not None:
+            border = True
+    return both if border else {True}
 
 
 def eval_points(spec):
@@ -459,8 +471,7 @@ def eval_points(spec):
         meshes = [occ_mesh[i] for i in S_idx]
         sig = None
         if affected and route != "visibleRegion":
-            pred = defect_prediction(cam, R, ang, vd, p, meshes)
-            if pred is not None and pred == obs:
+            if obs in defect_prediction(cam, R, ang, vd, p, meshes):
                 sig = DEFECT_SIG
         if sig is None:
             if route == "visibleRegion":
@@ -735,8 +746,7 @@ def eval_object(case):
     def name_fp(S_idx, default):
         """Name a false positive: explained by the point-target defect through the centre shortcut?"""
         if affected and sh.containsCenter:
-            pred = defect_prediction(cam, R, ang, vd, centre, [occ_mesh[i] for i in S_idx])
-            if pred:
+            if True in defect_prediction(cam, R, ang, vd, centre, [occ_mesh[i] for i in S_idx]):
                 return DEFECT_SIG
         return default
 
@@ -1030,9 +1040,17 @@ def eval_programs(payload):
                 # explained by the point-target defect (directly, or through the centre shortcut)?
                 wc_l, wypr, wdims = (0.137, 0.45 * vd, 0.071), (3, 2, 5), (0.5 * vd, 0.2, 0.5 * vd)
                 wmesh = M.box_mesh(wdims, R @ M.rot_deg(wypr), cam + R @ np.array(wc_l))
+                form = pc["form"][len("second-") :] if pc["form"].startswith("second-") else pc["form"]
+                negated = form.startswith(("require-not", "not-visible"))
+                seen = (res == "accept") != negated  # what Scenic decided: target visible?
                 pred = defect_prediction(cam, R, ang, vd, np.array(pc["p"]), [wmesh] if pc["occluding"] else [])
-                negated = pc["form"].startswith(("require-not", "not-visible"))
-                if pred is not None and (pred != negated) == (res == "accept"):
+                if pc["form"].startswith("second-"):
+                    pred = pred | defect_prediction(cam, R, ang, vd, np.array(pc["p"]), [])
+                if pc["group"].startswith("object:"):
+                    # through the centre shortcut the defect can only turn 'not visible' into 'visible'
+                    if seen and True in pred:
+                        sig = DEFECT_SIG
+                elif seen in pred:
                     sig = DEFECT_SIG
             if sig is None:
                 sig = f"scenario:{pc['form']}:{'accepted' if res == 'accept' else 'rejected'}-against-reference:{kind}"
